@@ -59,3 +59,24 @@ ENSURES(RET == 1 || RET == -1)
 ENSURES(RET == 1 IMPLIES *certs_len <= TLS_MAX_CERTIFICATES_SIZE)
 ;
 #endif
+
+#ifdef CONTRACT_TLS_GETTERS
+/* simple handshake-message getters: on success the output is a slice of the record's declared data */
+#ifdef VERIF_CBMC
+#define REC_LEN(r) ((size_t)5 + ((((size_t)(r)[3]) << 8) | (r)[4]))
+#define REC_REQ(r) (RD_OK(r, 5) && RD_OK(r, REC_LEN(r)))
+#define REC_SLICE(p, n, r) ((n) <= REC_LEN(r) && PTR_IN((r), (p), (r) + REC_LEN(r)) && (size_t)(__CPROVER_POINTER_OFFSET(p) - __CPROVER_POINTER_OFFSET(r)) + (n) <= REC_LEN(r))
+#endif
+#define GETTER_CONTRACT(fn, extra) \
+int fn(const uint8_t *record, const uint8_t **out, size_t *outlen) \
+REQUIRES(record == NULL || REC_REQ(record)) \
+REQUIRES((out == NULL || WR_OK(out, sizeof(*out))) && (outlen == NULL || WR_OK(outlen, sizeof(size_t)))) \
+ASSIGNS(out != NULL: *out; outlen != NULL: *outlen) \
+ENSURES(RET == 1 || RET == -1) \
+ENSURES((record == NULL || out == NULL || outlen == NULL) IMPLIES RET == -1) \
+ENSURES(RET == 1 IMPLIES ((*outlen == 0 ? 1 : REC_SLICE(*out, *outlen, record)) && (extra)))
+GETTER_CONTRACT(tls_record_get_handshake_client_key_exchange_pke, 1);
+GETTER_CONTRACT(tls_record_get_handshake_certificate_verify, 1);
+/* Finished.verify_data is 12 bytes (TLCP / TLS 1.2) or 32 bytes */
+GETTER_CONTRACT(tls_record_get_handshake_finished, (*outlen == 12 || *outlen == 32) && *out != NULL);
+#endif
